@@ -838,7 +838,7 @@ class BayesianNetwork(DAG):
             for k, v in states_dict.items():
                 for l in range(len(v.values)):
                     state = self.get_cpds(k).state_names[k][l]
-                    pred_values[k + "_" + str(state)].append(v.values[l])
+                    pred_values[str(k) + "_" + str(state)].append(v.values[l])
         return pd.DataFrame(pred_values, index=data.index)
 
     def get_state_probability(self, states):
